@@ -15,14 +15,12 @@ import (
 	"strings"
 	"sync"
 
-	"github.com/goplus/gogen/packages"
 	"github.com/goplus/mod/xgomod"
 	"github.com/goplus/xgo/ast"
 	"github.com/goplus/xgo/parser"
 	"github.com/goplus/xgo/token"
 	"github.com/goplus/xgo/x/typesutil"
 
-	"verifharness/xgolib"
 )
 
 // One importer per process: warming it up costs a `go list -export` per imported package, and
@@ -37,7 +35,7 @@ var (
 func getImporter() types.Importer {
 	impMu.Lock()
 	impOnce.Do(func() {
-		theImp = packages.NewImporter(token.NewFileSet(), xgolib.RepoDir())
+		theImp = fastImporter()
 	})
 	return theImp
 }
